@@ -33,7 +33,9 @@ pub const ALL: &[&str] = &[
 pub fn monitors_for(prop: &str) -> Vec<Box<dyn Monitor>> {
     match prop {
         "C01" => vec![Box::new(c01::C01::default())],
-        "C02" => vec![Box::new(c02::C02)],
+        // "whenever withdrawals are enabled" is judged against what the owner asked for, not against
+        // whatever the stored switch says: C02 also runs the switch model of C17
+        "C02" => vec![Box::new(c02::C02), Box::new(c17::C17::default())],
         "C03" => vec![Box::new(c03::C03)],
         "C04" => vec![Box::new(c04::C04)],
         "C05" => vec![Box::new(c05::C05)],
